@@ -164,6 +164,10 @@ var harnessPrims = map[string]StubFn{
 		x.pendKnown = append(x.pendKnown, KnownRegion{constStr(a[0]), asBool(a[1])})
 		return nil
 	},
+	"vSliceBound": func(x *Exec, fr *Frame, fn *ssa.Function, a []Value, p token.Pos) Value {
+		x.sliceBound = int(asInt(a[0]).sval())
+		return nil
+	},
 	"vUnwind": func(x *Exec, fr *Frame, fn *ssa.Function, a []Value, p token.Pos) Value {
 		x.unwind = int(asInt(a[0]).sval())
 		return nil
